@@ -2,8 +2,9 @@
   C08 — calls resolve to the callee that Python's scoping rules would pick.
 
   Model: `Context.getCallTarget` (the decision ladder of `Context.get_call_target`), `Context.add`
-  / `FnA.addArguments` (parameters are registered with a PLAIN add) — RattrModel/Context.lean,
-  RattrModel/FnAnalyser.lean.  Everything here is about the pure function, for all contexts.
+  / `FnA.addArguments` (since fix 87aba71 parameters are registered with `is_argument=True`) /
+  `FnA.addIdentifiers` (targets: still a PLAIN add) — RattrModel/Context.lean,
+  RattrModel/FnAnalyser.lean.  Everything here is about pure functions, for all contexts.
 
   In all statements `nameOf callee` is the name the ladder works with:
   `callee` without trailing `()` and without `*`.
@@ -11,13 +12,16 @@
   Holds (all contexts, all names):
     `C08_literal_never_resolves`, `C08_subscript_never_resolves`, `C08_method_on_non_import`,
     `C08_undefined_none`, `C08_bare_name_resolves_to_innermost` (+ `…_innermost_scope_wins`),
-    `C08_module_member_only_if_module_exists`, `C08_warn_flag_irrelevant`.
-  Defects of the pinned code (documented as theorems / counterexamples):
+    `C08_module_member_only_if_module_exists`, `C08_warn_flag_irrelevant`;
+    parameters (function / lambda / nested def) shadow: `C08_params_shadow`,
+    `C08_call_through_param` (the call resolves to the non-callable parameter symbol and is
+    diagnosed `call-procedural`: reported, never inlined), `C08_param_clause_holds`.
+  Remaining defects (documented as theorems / counterexamples):
     `C08_call_on_call_still_returns_target` — `f(p)(q)` is diagnosed yet `f` is returned (and
       later inlined with the OUTER arguments);
-    `C08_params_do_not_shadow` / `C08_param_shadowing_cex` — a parameter named like a module-level
-      function does not shadow it, so a call through the parameter is inlined from that function;
-      `C08_params_would_shadow_if_argument` is the repaired behaviour (`is_argument=True`).
+    `C08_comprehension_target_does_not_shadow` / `C08_cex_comprehension_target` — a comprehension
+      (or for / with / assignment) target named like a module-level function does not shadow it:
+      `[f(v) for f in fs]` resolves `f` to the module-level Func and inlines it.
 -/
 import RattrProofs.Lemmas.VisitCtx
 
@@ -241,36 +245,38 @@ theorem C08_cex_call_on_call :
     getCallTarget env0 [[], [("f".toList, fSym)]] "f()()".toList true true =
       (some fSym, [mkDiag .error "call-on-call" "f()()".toList]) := by decide
 
-/-! ### defect: parameters do not shadow -/
+/-! ### parameters shadow outer names (fix 87aba71) -/
 
-/-- `add_arguments_to_context` uses a plain `add`: a parameter whose name is visible outside keeps
-resolving to the OUTER symbol (for every context, parameter list and name). -/
-theorem C08_params_do_not_shadow (s : St) (ps : Params) (x : Str)
-    (h : Context.contains s.ctx x = true) :
+/-- after `add_arguments_to_context` in the function's / lambda's own scope, every parameter name
+resolves to the parameter's `Name` symbol — whatever the outer context holds under that name. -/
+theorem C08_params_shadow (s : St) (ps : Params) (x : Str) (hx : x ∈ ps.all) :
+    get? (FnA.addArguments { s with ctx := push s.ctx } ps).ctx x = some (nameSym x) :=
+  FnA.addArguments_shadows _ ps x hx
+
+/-- names that are not parameters resolve exactly as outside. -/
+theorem C08_non_params_unchanged (s : St) (ps : Params) (x : Str) (hx : x ∉ ps.all) :
     get? (FnA.addArguments { s with ctx := push s.ctx } ps).ctx x = get? s.ctx x := by
-  rw [FnA.addArguments_does_not_shadow _ ps x (by simpa using h)]
-  simp
+  rw [FnA.addArguments_other _ ps x hx]; simp
 
-/-- hence the call target of a bare call through such a parameter is the outer symbol. -/
-theorem C08_call_through_param_resolves_outer (env : Env) (s : St) (ps : Params) (callee : Str)
-    (coc warn : Bool)
-    (hat : startsWith (nameOf callee) ['@'] = false)
-    (hsub : containsSub (nameOf callee) (lit "[]") = false)
-    (hdot : '.' ∉ nameOf callee)
-    (h : Context.contains s.ctx (nameOf callee) = true) :
-    (getCallTarget env (FnA.addArguments { s with ctx := push s.ctx } ps).ctx callee coc warn).1
-      = get? s.ctx (nameOf callee) := by
-  rw [C08_bare_name_resolves_to_innermost env _ callee coc warn hat hsub hdot,
-    C08_params_do_not_shadow s ps _ h]
+theorem declares_add_arg (c : Context) (s : Sym) : declares (add c s true) s.name = true := by
+  cases c with
+  | nil => simp [add, declares, Dict.contains, Dict.get?]
+  | cons sc r => simp [add, declares, Dict.contains_set_self]
 
-/-- the repair (`is_argument=True`): every parameter resolves to its own Name symbol. -/
-theorem C08_params_would_shadow_if_argument (c : Context) (names : List Str) (x : Str)
-    (hx : x ∈ names) :
-    get? (names.foldl (fun c n => add c (nameSym n) true) c) x = some (nameSym x) := by
+theorem declares_add_arg_other (c : Context) (s : Sym) (x : Str) (h : s.name ≠ x) :
+    declares (add c s true) x = declares c x := by
+  cases c with
+  | nil => simp [add, declares, Dict.contains, Dict.get?, h]
+  | cons sc r => simp [add, declares, Dict.contains_set_other sc s.name x s h]
+
+/-- the parameters are declared in the innermost scope (what makes the diagnostic
+"likely a procedural parameter"). -/
+theorem declares_addArgNames (c : Context) (names : List Str) (x : Str) (hx : x ∈ names) :
+    declares (addArgNames c names) x = true := by
   induction names generalizing c with
   | nil => cases hx
   | cons n r ih =>
-    simp only [List.foldl_cons]
+    rw [addArgNames_cons]
     by_cases hr : x ∈ r
     · exact ih _ hr
     · have hn : x = n := by
@@ -278,55 +284,149 @@ theorem C08_params_would_shadow_if_argument (c : Context) (names : List Str) (x 
         · exact h
         · exact absurd h hr
       subst hn
-      have : ∀ (l : List Str) (c : Context), x ∉ l →
-          get? (l.foldl (fun c n => add c (nameSym n) true) c) x = get? c x := by
+      have : ∀ (l : List Str) (c : Context), x ∉ l → declares (addArgNames c l) x = declares c x := by
         intro l
         induction l with
         | nil => intro c _; rfl
         | cons m l ihl =>
           intro c hm
           simp only [List.mem_cons, not_or] at hm
-          simp only [List.foldl_cons]
-          rw [ihl _ hm.2]
-          exact get?_add_other c (nameSym m) true x (fun e => hm.1 e.symm)
+          rw [addArgNames_cons, ihl _ hm.2]
+          exact declares_add_arg_other c (nameSym m) x (fun e => hm.1 e.symm)
       rw [this r _ hr]
-      exact get?_add_arg c (nameSym x)
+      exact declares_add_arg c (nameSym x)
 
-/-- the defect, concretely: root context has Func `helper`; a function with a parameter named
-`helper` — as analysed (plain add) the name still resolves to the Func, so `helper()` inside is
-inlined from the module-level function; with `is_argument=True` it resolves to the parameter, which
-is not callable-resolvable. -/
-theorem C08_param_shadowing_cex :
+/-- a bare call through a parameter: the target is the parameter's own `Name` symbol (not callable,
+so nothing can be inlined from it) and the call is diagnosed `call-procedural`; no module-level
+definition of the same name is ever returned. -/
+theorem C08_call_through_param (env : Env) (s : St) (ps : Params) (callee : Str)
+    (hat : startsWith (nameOf callee) ['@'] = false)
+    (hsub : containsSub (nameOf callee) (lit "[]") = false)
+    (hdot : '.' ∉ nameOf callee)
+    (hp : nameOf callee ∈ ps.all) :
+    getCallTarget env (FnA.addArguments { s with ctx := push s.ctx } ps).ctx callee false true =
+      (some (nameSym (nameOf callee)), [mkDiag .error "call-procedural" (withCallBrackets callee)]) := by
+  have hb := C08_params_shadow s ps _ hp
+  have hdecl : declares (FnA.addArguments { s with ctx := push s.ctx } ps).ctx (nameOf callee) = true := by
+    rw [FnA.addArguments_ctx]; exact declares_addArgNames _ _ _ hp
+  have hl := lhsOf_bare callee hdot
+  have hd := contains_dot_false hdot
+  unfold nameOf lhsOf at *
+  unfold getCallTarget
+  simp only [hat, hsub, hd, hb]
+  simp [nameSym, hdecl]
+
+/-- whatever the flags, the TARGET of a bare call through a parameter is the parameter symbol. -/
+theorem C08_call_through_param_target (env : Env) (s : St) (ps : Params) (callee : Str)
+    (coc warn : Bool)
+    (hat : startsWith (nameOf callee) ['@'] = false)
+    (hsub : containsSub (nameOf callee) (lit "[]") = false)
+    (hdot : '.' ∉ nameOf callee)
+    (hp : nameOf callee ∈ ps.all) :
+    (getCallTarget env (FnA.addArguments { s with ctx := push s.ctx } ps).ctx callee coc warn).1
+      = some (nameSym (nameOf callee)) := by
+  rw [C08_bare_name_resolves_to_innermost env _ callee coc warn hat hsub hdot,
+    C08_params_shadow s ps _ hp]
+
+/-- TEST (the former defect witness, now repaired): root context has Func `helper`; inside a
+function with a parameter `helper` the name is the parameter, and `helper()` is diagnosed. -/
+theorem C08_test_param_shadows_function :
     let root : Context := [[("helper".toList, helperSym)]]
     let ps : Params := ⟨[], ["helper".toList], none, [], none⟩
-    let asAnalysed := (FnA.addArguments { ctx := push root } ps).ctx
-    let repaired := add (push root) (nameSym "helper".toList) true
-    get? asAnalysed "helper".toList = some helperSym ∧
-    (getCallTarget env0 asAnalysed "helper()".toList false true).1 = some helperSym ∧
-    get? repaired "helper".toList = some (nameSym "helper".toList) ∧
-    (getCallTarget env0 repaired "helper()".toList false true).1 = some (nameSym "helper".toList) ∧
-    (nameSym "helper".toList).kind = .name := by decide
+    let ctx := (FnA.addArguments { ctx := push root } ps).ctx
+    get? ctx "helper".toList = some (nameSym "helper".toList) ∧
+    getCallTarget env0 ctx "helper()".toList false true =
+      (some (nameSym "helper".toList), [mkDiag .error "call-procedural" "helper()".toList]) ∧
+    (nameSym "helper".toList).kind = .name ∧ (nameSym "helper".toList).callable = false := by decide
+
+/-! ### defect: comprehension / loop / assignment targets do not shadow -/
+
+/-- targets are registered by `add_identifiers_to_context` with a PLAIN add: a target whose name is
+visible outside (e.g. a module-level function) keeps resolving to the OUTER symbol, even in the
+comprehension's own fresh scope. -/
+theorem C08_comprehension_target_does_not_shadow (s s' : St) (t : Node) (x : Str)
+    (h : Context.contains s.ctx x = true)
+    (ha : FnA.addIdentifiers { s with ctx := push s.ctx } t = .ok s') :
+    get? s'.ctx x = get? s.ctx x := by
+  unfold FnA.addIdentifiers at ha
+  split at ha
+  · injection ha with ha
+    subst ha
+    show get? (addNames (push s.ctx) _) x = _
+    rw [get?_addNames_visible _ _ x (by simpa using h)]
+    simp
+  · cases ha
+  · cases ha
+
+/-- hence a bare call through such a target resolves to the outer symbol (and is inlined from it
+when that is a function / class). -/
+theorem C08_call_through_target_resolves_outer (env : Env) (s s' : St) (t : Node) (callee : Str)
+    (coc warn : Bool)
+    (hat : startsWith (nameOf callee) ['@'] = false)
+    (hsub : containsSub (nameOf callee) (lit "[]") = false)
+    (hdot : '.' ∉ nameOf callee)
+    (h : Context.contains s.ctx (nameOf callee) = true)
+    (ha : FnA.addIdentifiers { s with ctx := push s.ctx } t = .ok s') :
+    (getCallTarget env s'.ctx callee coc warn).1 = get? s.ctx (nameOf callee) := by
+  rw [C08_bare_name_resolves_to_innermost env _ callee coc warn hat hsub hdot,
+    C08_comprehension_target_does_not_shadow s s' t _ h ha]
+
+def fenv0 : FnA.Env := ⟨env0, []⟩
+
+/-- the defect end to end (kernel evaluation of `FnA.analyse`): module-level Func `f`;
+`def w(fs, v): [f(v) for f in fs]` — the recorded call `f(v)` carries the module-level `f` as its
+target, so `f`'s body is inlined although `f` is the comprehension's loop variable. -/
+theorem C08_cex_comprehension_target :
+    (match FnA.analyse fenv0 [] [[("f".toList, fSym)]] ⟨[], ["fs".toList, "v".toList], none, [], none⟩
+        [.comp "ListComp".toList
+          [.call (.name "f".toList .load) [.name "v".toList .load] [] []]
+          [.gen (.name "f".toList .store) (.name "fs".toList .load) []]] with
+     | .ok s => s.calls.map (fun c => (c.name, c.args, c.target))
+     | _ => []) = [("f".toList, ["v".toList], some fSym)] := by decide +kernel
 
 /-! ### full statement (single-context form) and its refutation -/
 
-/-- whether a parameter list (of the calling function or an enclosing lambda) binds `x`. -/
+/-- a call through a parameter of the calling function / an enclosing lambda never resolves to
+anything but the parameter. -/
 def C08_param_clause : Prop :=
   ∀ (env : Env) (root : Context) (ps : Params) (callee : Str) (t : Sym),
     nameOf callee ∈ ps.all →
     (getCallTarget env (FnA.addArguments { ctx := push root } ps).ctx callee false true).1 = some t →
     t.kind = .name
 
+/-- a call through a comprehension / loop target never resolves to a module-level definition. -/
+def C08_target_clause : Prop :=
+  ∀ (env : Env) (c : Context) (tgt : Node) (names : List Str) (callee : Str) (s' : St) (t : Sym),
+    FnA.unravelNames tgt = .ok names → nameOf callee ∈ names →
+    FnA.addIdentifiers { ctx := push c } tgt = .ok s' →
+    (getCallTarget env s'.ctx callee false true).1 = some t → t.kind = .name
+
 def C08_call_on_call_clause : Prop :=
   ∀ (env : Env) (c : Context) (callee : Str), (getCallTarget env c callee true true).1 = none
 
-/-- the property over this model: a call through a parameter never resolves to a module-level
-definition, and a call on a call result resolves to nothing. -/
-def C08_full : Prop := C08_param_clause ∧ C08_call_on_call_clause
+/-- the property over this model: a call through a parameter or a local target never resolves to a
+module-level definition, and a call on a call result resolves to nothing. -/
+def C08_full : Prop := C08_param_clause ∧ C08_target_clause ∧ C08_call_on_call_clause
 
-theorem C08_param_clause_false : ¬ C08_param_clause := by
+/-- the parameter clause HOLDS since fix 87aba71 — for every spelling of the callee, not only bare
+names: whenever the cleaned name is a parameter name, the ladder answers nothing or the parameter. -/
+theorem C08_param_clause_holds : C08_param_clause := by
+  intro env root ps callee t hp h
+  have hb : get? (FnA.addArguments { ctx := push root } ps).ctx (nameOf callee)
+      = some (nameSym (nameOf callee)) := FnA.addArguments_shadows _ ps _ hp
+  rw [getCallTarget_fst] at h
+  unfold ladder at h
+  simp only [hb, Option.isNone_some, Bool.and_false, Bool.false_and, Bool.false_eq_true, if_false] at h
+  split at h
+  · cases h
+  · split at h
+    · cases h
+    · injection h with h; subst h; rfl
+
+theorem C08_target_clause_false : ¬ C08_target_clause := by
   intro h
-  have := h env0 [[("helper".toList, helperSym)]] ⟨[], ["helper".toList], none, [], none⟩
-    "helper()".toList helperSym (by decide) (by decide)
+  have := h env0 [[("f".toList, fSym)]] (.name "f".toList .store) ["f".toList] "f()".toList
+    { ctx := [[], [("f".toList, fSym)]] } fSym (by rfl) (by decide) (by rfl) (by decide)
   revert this; decide
 
 theorem C08_call_on_call_clause_false : ¬ C08_call_on_call_clause := by
@@ -334,7 +434,7 @@ theorem C08_call_on_call_clause_false : ¬ C08_call_on_call_clause := by
   have := h env0 [[], [("f".toList, fSym)]] "f()()".toList
   revert this; decide
 
-theorem C08_full_false : ¬ C08_full := fun h => C08_param_clause_false h.1
+theorem C08_full_false : ¬ C08_full := fun h => C08_target_clause_false h.2.1
 
 /-! ### non-vacuity -/
 
